@@ -70,7 +70,11 @@ func iterate(s lib.RStoreI, p string, rev bool) ([]KV, error) {
 	defer it.Close()
 	out := []KV{}
 	for ; it.Valid(); it.Next() {
-		out = append(out, KV{K: keyIndex(it.Key()), V: string(it.Value())})
+		v := string(it.Value())
+		if v == "" {
+			v = "e" // a live key with an empty value (the state machine's index entries are written like this)
+		}
+		out = append(out, KV{K: keyIndex(it.Key()), V: v})
 	}
 	return out, nil
 }
@@ -113,15 +117,21 @@ func sequence(rng *rand.Rand, ops int, disk bool, enc *json.Encoder) error {
 	emit(Line{Op: "start"})
 	stack := []lib.StoreI{st} // stack[0] = the store, deeper = nested transactions
 	var cp lib.StoreI
-	vals := []string{"x", "y", "z"}
+	vals := []string{"x", "y", "z", "e"} // "e" is written as the empty value: present for iteration, indistinguishable from absent for Get
+	enc2 := func(v string) []byte {
+		if v == "e" {
+			return nil
+		}
+		return []byte(v)
+	}
 	prefixes := []string{"a", "b", "ab"}
 	for i := 0; i < ops; i++ {
 		top := stack[len(stack)-1]
 		k := 1 + rng.Intn(len(segs))
 		switch r := rng.Intn(100); {
 		case r < 22:
-			v := vals[rng.Intn(3)]
-			emit(Line{Op: "set", K: k, V: v, Err: errs(top.Set(key(k), []byte(v)))})
+			v := vals[rng.Intn(len(vals))]
+			emit(Line{Op: "set", K: k, V: v, Err: errs(top.Set(key(k), enc2(v)))})
 		case r < 32:
 			emit(Line{Op: "delete", K: k, Err: errs(top.Delete(key(k)))})
 		case r < 44:
@@ -192,8 +202,8 @@ func sequence(rng *rand.Rand, ops int, disk bool, enc *json.Encoder) error {
 			if cp != nil {
 				switch rng.Intn(4) {
 				case 0:
-					v := vals[rng.Intn(3)]
-					emit(Line{Op: "cpset", K: k, V: v, Err: errs(cp.Set(key(k), []byte(v)))})
+					v := vals[rng.Intn(len(vals))]
+					emit(Line{Op: "cpset", K: k, V: v, Err: errs(cp.Set(key(k), enc2(v)))})
 				case 1:
 					emit(Line{Op: "cpdelete", K: k, Err: errs(cp.Delete(key(k)))})
 				case 2:
